@@ -260,12 +260,20 @@ func (s *sim) makeTx(v *view, spec TxSpec) *txInfo {
 	facts.ins = ins
 	signer := from
 	codeOf := from
+	// "another actor": the next key-holding actor that is not From itself
+	other := s.keyed(from.idx + 1)
+	if other == from {
+		other = s.keyed(from.idx + 2)
+	}
+	if other == from && (spec.Sign == 1 || spec.Sign == 4) {
+		spec.Sign = 0 // nobody else holds a key in this run
+	}
 	switch spec.Sign {
 	case 1:
-		signer = s.keyed(spec.From + 1)
+		signer = other
 		codeOf = signer
 	case 4:
-		codeOf = s.keyed(spec.From + 1)
+		codeOf = other
 	}
 	// owners of the referenced outputs that are not From need their own programs;
 	// an honest multi-owner spend is not generated, so only From's program is attached.
@@ -437,6 +445,12 @@ func (s *sim) buildBlock(parent *mBlock, bs *BlockSpec) *mBlock {
 	}
 	ts := parent.ts + 1 + uint32(mod(bs.Dt, 600))
 	mtp := medianTimePast(parent)
+	// honest miners stamp blocks from their clocks: never more than a few
+	// minutes ahead of the node's (blocks mined by the node itself carry "now",
+	// so a long run of +dt children would drift past the 2 h future limit)
+	if lim := uint32(s.now().Unix()) + 600; ts > lim {
+		ts = lim
+	}
 	if ts < mtp+2 {
 		ts = mtp + 2 // generated away from the boundary (DESIGN A.4)
 	}
